@@ -24,6 +24,24 @@ CHECKS = {
     'C16': dict(category='model_checking', engine='TimeSeries', technique='TLA+ TimeSeries.tla: shift/lag/lead/diff operators and an eval() expression machine enumerated exhaustively by TLC; every case replayed on fsic.functions and VectorContainer.eval over five span types',
                 text='TimeSeries.tla defines lag/lead/diff as the property states them and models eval() (label resolution, namespace assembly, evaluation, NameError->AttributeError) with a direct denotation layer (C16_* invariants); TLC enumerates all small arrays x shifts x fills and all expressions up to 3 operator nodes over namespace scenarios and spans; each emitted case carries the expected result and is replayed on the real helpers and on container.eval, also checking input arrays, the container and the package-level helper table are untouched.',
                 note='Trusted: TLC; ast round-trip of rendered expressions; arrays <=4, expressions <=3 operator nodes; dlog compared numerically against np.log differences.', ref='6.9, 7 (C16)'),
+    'C01': dict(category='translation_validation', engine='Script', technique="TLA+ Script.tla program space (stack machine, exhaustive layers + simulation) with reference semantics; generated _evaluate executed concolically on recording arrays and compared with the reference interpretation of the spec tree and with the spec's Gauss-Seidel event list",
+                text="Script.tla enumerates every program of each layer and defines what it means (terms, evaluation order, which cell version every read sees); TLC checks the semantic theorems on every program; the harness renders each program under several name maps, runs fsic's parser and class builder, executes the generated code on recording arrays (term tree + value per write, raw index per access, branch decisions) for every feasible period and three data tables and requires equality with the reference; equality of term trees over uninterpreted leaves holds for all data.",
+                note="Trusted: TLC; renderer (cross-checked by Python's ast on every program); Sym/RecArray concolic layer; Python operators as float semantics. Bounds: layers term/pair/shape/merge exhaustively, sim beyond.", ref='6.7, 7 (C01)'),
+    'C03': dict(category='model_checking', engine='Script', technique='TLA+ Script.tla: classification/order/lag-lead/default-range operators and theorems checked by TLC on every generated program; parse_model and build_model outputs compared with the emitted reference',
+                text="TLC proves on every program of the layers that the four classes partition the names in first-appearance order, LAGS/LEADS are the extreme offsets and the default range equals the set of feasible periods; the parser's symbol list, the built class's lists and LAGS/LEADS under eight option sets, and the periods solve() visits are compared with the emitted reference; rejected programs must raise SymbolError/ParserError.",
+                note='Trusted: TLC; renderer; name maps. A name used both as variable and as called function in one script is treated as rejected (SymbolError).', ref='6.7, 7 (C03)'),
+    'C04': dict(category='model_checking', engine='Script', technique='TLA+ Script.tla feasibility / reads-inside theorems (TLC) + Solver.tla C04_OnlyT; every program x span length x period (both spellings) solved on the real class with full-matrix diff and recording arrays',
+                text='TLC proves DefaultRange = feasible set and that all reads of a feasible period are inside the span; the binding solves every period of every program through solve_t and solve(start=end) and checks that feasible periods change only the assigned cells and status/iterations at t, that every array access hits the intended position (no wrap), and that infeasible periods are rejected with nothing changed.',
+                note='Trusted: as C01; python engine only in this check (Fortran engine covered under C07).', ref='7 (C04)'),
+    'C14': dict(category='translation_validation', engine='Script', technique="TLA+ Script.tla programs rendered under a layout catalogue; symbols and code AST must equal the canonical rendering's (metamorphic), statement independence, permutation, normal-form fixed point",
+                text='Each spec program is rendered under eleven layouts; since the program (tree) is the meaning, every layout must give the same symbols and code AST; parsing a script must equal merging single-statement parses, permuting statements only permutes symbols and re-feeding a normalised equation reproduces equation and code.',
+                note='Trusted: renderer and layout joiner (cross-checked by ast for the canonical layout).', ref='7 (C14)'),
+    'C15': dict(category='translation_validation', engine='Script', technique='TLA+ Script.tla programs x option sets (WithOpt computed by TLC) x build routes; class attributes compared with the reference and evaluation events compared pairwise by concolic execution',
+                text="For every program and four option sets the classes from build_model, from executing the definition text and from executing CODE, with and without type hints, must have the spec's lists and LAGS/LEADS and produce identical evaluation event sequences; converters are called once per equation-bearing symbol in order and their output is inserted verbatim.",
+                note='Trusted: as C01.', ref='7 (C15)'),
+    'C20': dict(category='model_checking', engine='Script', technique='TLA+ Script.tla Deps operator (TLC: Deps = right-hand-side reads) vs symbols_to_graph edges; observed reads and perturbation on recording arrays',
+                text="TLC proves Deps(i) equals the variable-like right-hand-side terms; the graph's edges among variable-like nodes must equal Deps, nodes carry their normalised equation, the reads observed when evaluating each equation alone equal its in-edges and perturbing any series/offset without an edge leaves the result unchanged.",
+                note='Trusted: as C01.', ref='7 (C20)'),
 }
 
 NOT_YET = {}
